@@ -627,6 +627,7 @@ static void print_words(const uint8_t* flag) {       // the 8 mask words with th
 }
 static int s_round_no; static uint64_t s_seed; static mi_msecs_t s_t0; static size_t s_mark; static char s_victims[4096]; static char s_layout[16384];
 static long s_deadline_rel;
+static int s_partial;        // this round filled only a part of the segment: a page allocation finds free slices that were never used
 static void s_check(mi_segment_t* seg, const char* step, const char* expect) {
   static uint8_t early[MI_SLICES_PER_SEGMENT], missing[MI_SLICES_PER_SEGMENT], livehit[MI_SLICES_PER_SEGMENT], want[MI_SLICES_PER_SEGMENT];
   s_coverage(seg, s_mark);
@@ -676,7 +677,7 @@ static int s_activity(mi_segment_t* seg, int kind) {
   else if (kind == 2) {
     // a page allocation: a size class that was not used in this round, so a fresh page is needed
     static const size_t fresh[] = { 4096, 2048, 6144, 32768, 49152, 200000, 2 * 1024 * 1024 };
-    const size_t size = fresh[prng_below(&G, sizeof(fresh) / sizeof(fresh[0]))];
+    const size_t size = (s_partial && prng_below(&G, 4) != 0 ? fresh[3 + prng_below(&G, 4)] : fresh[prng_below(&G, sizeof(fresh) / sizeof(fresh[0]))]);
     const int before = NSP;
     const int pg = s_alloc(size, size <= MI_SMALL_OBJ_SIZE_MAX ? 0 : size <= MI_MEDIUM_OBJ_SIZE_MAX ? 1 : 2);
     if (pg >= before && SP[pg].seg == seg) {
@@ -707,6 +708,7 @@ static void scatter_round(long delay) {
   const long ext = mi_option_get(mi_option_purge_extend_delay);
   // ---- layout
   const size_t goal = (prng_below(&G, 4) == 0 ? 150 + prng_below(&G, 350) : 520 + prng_below(&G, 30));
+  s_partial = (goal < 500);
   size_t total = 0; int kind = (int)prng_below(&G, 3);
   while (total < goal && NSB < SMAXBLK - 200 && NSP < SMAXPG - 40) {
     const size_t k = prng_below(&G, 10);
@@ -816,7 +818,7 @@ static void scatter_round(long delay) {
       }
       else {
         shim_clock_set_ms(s_t0 + s_deadline_rel + ext + 1 + (mi_msecs_t)prng_below(&G, (size_t)(3 * delay)));
-        int k = (int)prng_below(&G, 3);
+        int k = (s_partial && prng_below(&G, 2) == 0 ? 2 : (int)prng_below(&G, 3));
         int r = s_activity(seg, k);
         if (k == 2 && r != -2) {
           // the allocation took pending slices back (expiry pushed to now + delay) or did not touch the segment:
